@@ -131,7 +131,7 @@ theorem bitsOf_take (ws : List (BitVec 64)) (len p : Nat) (hp : p ≤ len) (hw :
       have h4 : i % 64 < p % 64 := by omega
       have h5 : i % 64 < 64 := by omega
       rw [h3, h2]
-      simp [h4, h5, wordBits_getElem?, List.getD_eq_getElem?_getD, List.getElem?_eq_getElem hw]
+      simp [h4, h5, wordBits, List.getD_eq_getElem?_getD, List.getElem?_eq_getElem hw]
   · simp only [hi, if_false]
     symm
     apply List.getElem?_eq_none
@@ -139,7 +139,7 @@ theorem bitsOf_take (ws : List (BitVec 64)) (len p : Nat) (hp : p ≤ len) (hw :
     omega
 
 /-- `trees::find_open(words, len, p)` = the right-to-left scan, for every `|ws| = ⌈len/64⌉`. -/
-theorem freeFindOpen_eq (ws : List (BitVec 64)) (len p : Nat) (hw : ws.length = (len + 63) / 64) :
+theorem freeFindOpen_eq (ws : List (BitVec 64)) (len p : Nat) (hw : (len + 63) / 64 ≤ ws.length) :
     freeFindOpen ws.toArray len p = BP.findOpen (bitsOf ws len) p := by
   unfold freeFindOpen BP.findOpen
   rw [bitsOf_getElem?]
